@@ -23,6 +23,9 @@ def _fix_for_cvc5(txt):
     txt = re.sub(r"\(\s*int\.to\.str", "(str.from_int", txt)
     txt = re.sub(r"\(\s*str\.to\.int", "(str.to_int", txt)
     txt = txt.replace("str.from_code", "str.from_code")
+    # z3 5.x names of the bit-vector / integer conversions
+    txt = re.sub(r"\(\s*ubv_to_int\b", "(bv2nat", txt)
+    txt = re.sub(r"\(\(_\s+int_to_bv\s+(\d+)\)", r"((_ int2bv \1)", txt)
     return "(set-logic ALL)\n" + txt
 
 
